@@ -228,7 +228,11 @@ func bmpCaps(asn uint32, addPathMode uint8) []packet.OptParam {
 func (p bmpPeer) opens() (sent, recv []byte) {
 	var rx, tx uint8
 	if p.AddPath {
+		// the monitored router receives several paths per prefix: it advertised receive (or both), its peer send (or both)
 		rx, tx = packet.AddPathReceive, packet.AddPathSend
+		if p.V6 {
+			rx, tx = packet.AddPathSendReceive, packet.AddPathSendReceive
+		}
 	}
 	sent = packet.SerializeOpenMsg(&packet.BGPOpen{Version: 4, ASN: uint16(bmpLocalASN), HoldTime: 90,
 		BGPIdentifier: bmpRouterBID, OptParams: bmpCaps(bmpLocalASN, rx)})
